@@ -203,16 +203,25 @@ type kase struct {
 	Height int64  `json:"height,omitempty"`
 	Field  string `json:"field,omitempty"`
 	Kind   string `json:"kind,omitempty"`
+	Plain  bool   `json:"plain,omitempty"` // base transaction with groupCount 0 (next and header still carried)
 }
+
+// plainBase selects the second base transaction: not a group member (groupCount 0) but still carrying
+// next and header bytes, which the wire format allows.
+var plainBase bool
 
 func baseTx() *types.Transaction {
 	tx := &types.Transaction{}
 	populate(tx.ProtoReflect(), 0)
+	if plainBase {
+		tx.GroupCount = 0
+	}
 	tx.Execer = []byte("coins") // an execer without its own crypto table: the system drivers decide
 	return tx
 }
 
 func hashCase(c kase) string {
+	plainBase = c.Plain
 	tx := baseTx()
 	switch c.Kind {
 	case "Clone", "CloneTx":
@@ -260,6 +269,7 @@ func hashCase(c kase) string {
 func partHash() {
 	tx := baseTx()
 	try := func(c kase) {
+		c.Plain = plainBase
 		r.Count("evaluations", 1)
 		if f := hashCase(c); f != "" {
 			r.Violate("hash:"+vx.Norm(f, 60), fmt.Sprintf("%s (%s)", f, vx.J(c)), c, func() string { return hashCase(c) })
@@ -498,6 +508,7 @@ func altClass(c kase) string {
 }
 
 func sigCase(c kase) string {
+	plainBase = c.Plain
 	d := findDrv(c.Driver)
 	if d == nil {
 		return "no such driver"
@@ -574,6 +585,7 @@ func partSig() {
 			var fast func(c kase) string
 			try := func(c kase) {
 				c.Part, c.Driver, c.AddrID = "sig", d.name, a
+				c.Plain = plainBase
 				r.Count("evaluations", 1)
 				f := ""
 				if fast != nil {
@@ -647,8 +659,11 @@ func main() {
 		fmt.Println("HARNESS-ERROR expected >=6 crypto drivers and >=2 address formats, got", len(drivers), len(addrIDs))
 		os.Exit(2)
 	}
-	partHash()
-	partSig()
+	for _, pb := range []bool{false, true} {
+		plainBase = pb
+		partHash()
+		partSig()
+	}
 	fmt.Println()
 	r.Floors["fields"] = 13
 	r.Floors["sigtypes"] = 10
